@@ -64,6 +64,26 @@ def scenarios(tier, seed):
                                 engine=engine, order=ORDERS[k % len(ORDERS)], states=C.STATE_STYLES[k % len(C.STATE_STYLES)],
                                 names="str" if virt else list(C.NAME_STYLES)[k % 4], hashseed=k % 2,
                                 cost=len(C.sym_names(dict(nodes=nodes, parents=parents, card=card)))))
+    # BayesianNetwork.predict: row-wise MAP of all missing variables (duplicate rows are answered once and merged back)
+    for sname in ["pair", "chain3", "fork3", "collider3", "full3", "diamond", "collchild"]:
+        nodes, parents = C.SHAPES[sname]
+        for card in C.card_options(nodes, tier)[: (2 if tier == "quick" else 4)]:
+            for r in range(1, len(nodes)):
+                for cols in itertools.combinations(nodes, r):
+                    missing = [v for v in nodes if v not in cols]
+                    if int(np.prod([card[v] for v in missing])) > maxcells:
+                        continue
+                    k += 1
+                    if tier == "quick" and k % 3:
+                        continue
+                    rows = [{e: (k + i + j) % card[e] for i, e in enumerate(cols)} for j in range(2)]
+                    rows.append(dict(rows[0]))
+                    fixed = [nodes[(k + 1) % 4], nodes[(k + 2) % 4]] if (len(nodes) == 4 and tier == "quick") else []
+                    styles = [s for s in C.STATE_STYLES if s != "tuple"]
+                    out.append(dict(family=f"map/predict/{sname}", kind="bn", mode="predict", nodes=nodes, parents=parents, card=card, cols=list(cols), rows=rows,
+                                    q=missing, ev={}, engine=["ve", "bp"][k % 2], fixed_cpds=fixed, fixed_seed=k, budget_s=45,
+                                    states=styles[k % len(styles)], names=["str", "long", "int"][k % 3], hashseed=k % 2,
+                                    cost=len(C.sym_names(dict(nodes=nodes, parents=parents, card=card)))))
     for mname, (nodes, scopes) in MNS.items():
         for card in C.card_options(nodes, tier)[:2]:
             for r in (1, 2):
@@ -128,7 +148,50 @@ def build_mn(desc, M, positive=True):
     return mn, val, syms
 
 
+def run_predict(desc, M):
+    import pandas as pd
+    from pgmpy.inference import BeliefPropagation
+    nodes, card = desc["nodes"], desc["card"]
+    M.declare(C.sym_names(desc))
+    tabs = C.make_tables(desc, M, positive=False)
+    jt = C.joint_table(desc, tabs)
+    model, nm = C.build_bn(desc, M, tabs)
+    for row in desc["rows"]:
+        pe = C.marginal(desc, jt, row)
+        M.assume(pe > 0, "P(evidence row) > 0")
+        M.mark_pos(pe)
+    col_data = {}
+    for e in desc["cols"]:
+        ser = pd.Series([None] * len(desc["rows"]), index=[5, 7, 9][:len(desc["rows"])], dtype=object)
+        for i, row in enumerate(desc["rows"]):
+            ser.iloc[i] = C.sname(desc, e, row[e])
+        col_data[nm[e]] = ser
+    data = pd.DataFrame(col_data)
+    before = data.copy()
+    kw = dict(algo=BeliefPropagation) if desc["engine"] == "bp" else {}
+    res = model.predict(data, n_jobs=1, **kw)
+    missing = desc["q"]
+    M.check(data.equals(before), "predict leaves the data frame unchanged")
+    if not M.check(set(res.columns) == {nm[v] for v in missing} and len(res) == len(desc["rows"]), "predict: one column per missing variable, one row per data row",
+                   detail=f"{list(res.columns)} x {len(res)}"):
+        return
+    for i, row in enumerate(desc["rows"]):
+        star = {}
+        for v in missing:
+            got = res[nm[v]].iloc[i]
+            names_v = C.expected_state_names(desc, v)
+            if not M.check(any(got == n for n in names_v), "predict: returned value is a declared state name", detail=f"{v}: {got!r}"):
+                return
+            star[v] = [bool(got == n) for n in names_v].index(True)
+        best = C.marginal(desc, jt, {**star, **row})
+        for a in C.assignments(desc, missing):
+            if a != star:
+                M.le(C.marginal(desc, jt, {**a, **row}), best, "predict: row answer maximises the posterior given that row", detail=f"row {i} {row}: a*={star} beaten by {a}")
+
+
 def run(desc, M):
+    if desc.get("mode") == "predict":
+        return run_predict(desc, M)
     from pgmpy.factors.discrete import TabularCPD
     from pgmpy.inference import BeliefPropagation, VariableElimination
     nodes, card = desc["nodes"], desc["card"]
